@@ -64,7 +64,7 @@ class Run:
             self.overlay_cache[k] = v.overlay_for(self.sc, {n: pkgdir for n in names})
         return self.overlay_cache[k]
 
-    def execute(self, hname, pkgdir, runre, behaviours, tag, env=None, race=False, timeout=1200):
+    def execute(self, hname, pkgdir, runre, behaviours, tag, env=None, race=False, timeout=1200, allow_fail=False):
         """behaviours: list of JSON strings (one schedule each). Returns list of traces
         (each a list of rows), in the same order as the behaviours."""
         inp = self.sc.path("%s-in.ndjson" % tag)
@@ -80,13 +80,15 @@ class Run:
             e.update(env)
         rc, out = v.go_test(self.sc, pkgdir, self.overlay(hname, pkgdir), runre, e, race=race,
                             timeout=timeout)
-        if rc != 0 or not os.path.exists(outp):
+        self.last_go_output = out
+        if (rc != 0 and not allow_fail) or not os.path.exists(outp):
             raise v.MachineryError("harness failed (rc=%s) %s %s:\n%s\n[...]\n%s" % (rc, pkgdir, runre, out[:3000], out[-3000:]))
         if "no tests to run" in out:
             raise v.MachineryError("harness test %s not found in %s" % (runre, pkgdir))
         traces = v.split_traces(v.read_ndjson(outp))
         if len(traces) != len(behaviours):
-            raise v.MachineryError("dead driver: %d behaviours but %d traces" % (len(behaviours), len(traces)))
+            raise v.MachineryError("dead driver: %d behaviours but %d traces\n%s\n[...]\n%s"
+                                   % (len(behaviours), len(traces), out[:2500], out[-2500:]))
         return traces
 
     def replay_behaviours(self, group):
